@@ -71,9 +71,13 @@ func chandrainHandler(req *sb.Req) *sb.Rep {
 		select {
 		case <-done:
 		case <-time.After(5 * time.Second):
+			// blocked in both of two samples half a second apart: a goroutine that merely waits for a lock
+			// for an instant on an overloaded machine is not taken for a stuck one
+			first := goroutineStates()
+			time.Sleep(500 * time.Millisecond)
 			blocked := 0
-			for _, st := range goroutineStates() {
-				if blockedState(st) {
+			for id, st := range goroutineStates() {
+				if blockedState(st) && blockedState(first[id]) {
 					blocked++
 				}
 			}
